@@ -44,6 +44,10 @@ type Config struct {
 	FreeRefs bool
 	// CaseNames uses rule names that differ only by letter case.
 	CaseNames bool
+	// Wide draws terminals from a wider alphabet (letters whose case mapping
+	// leaves ASCII, digits, punctuation) and the usual wide ranges; tool world
+	// only, where no input has to match.
+	Wide bool
 }
 
 type gctx struct {
@@ -59,7 +63,12 @@ type gctx struct {
 var asciiAlphabet = []rune{'a', 'b', 'c'}
 var uniAlphabet = []rune{'a', 'b', 'c', '\n', 'é', '日'}
 
+var wideAlphabet = []rune{'a', 'b', 'c', 'k', 's', 'z', 'K', 'S', 'I', 'i', '0', '9', '_', '-', '+', '(', ')', '"', '\'', '\\', ']', '^', '\n', '\t', 'é', 'ß', 'ſ', 'K', 'İ', '日'}
+
 func (c *gctx) alphabet() []rune {
+	if c.cfg.Wide {
+		return wideAlphabet
+	}
 	if c.cfg.Unicode {
 		return uniAlphabet
 	}
@@ -91,11 +100,18 @@ func (c *gctx) lit() *Expr {
 func (c *gctx) class() *Expr {
 	e := &Expr{Kind: Class}
 	al := c.alphabet()
+	if c.cfg.Wide && c.chance(1, 3) {
+		rs := [][2]rune{{'a', 'z'}, {'A', 'Z'}, {'0', '9'}, {'a', 'f'}, {'j', 'l'}, {'r', 't'}, {0x80, 0xff}, {'a', 'a'}}
+		for n := 1 + c.r.Intn(2); n > 0; n-- {
+			p := rs[c.r.Intn(len(rs))]
+			e.Ranges = append(e.Ranges, p[0], p[1])
+		}
+	}
 	switch c.r.Intn(5) {
 	case 0:
-		e.Ranges = []rune{'a', 'c'}
+		e.Ranges = append(e.Ranges, 'a', 'c')
 	case 1:
-		e.Ranges = []rune{'a', 'b'}
+		e.Ranges = append(e.Ranges, 'a', 'b')
 		e.Chars = []rune{al[c.r.Intn(len(al))]}
 	default:
 		n := 1 + c.r.Intn(3)
@@ -454,6 +470,21 @@ func generateOnce(r Rand, cfg Config) *Grammar {
 	}
 	if cfg.SharedLeaf {
 		leaf := &Rule{Name: "Leaf", Expr: c.terminal()}
+		if c.chance(1, 2) {
+			// a leaf with a code block: inlining it in several places shares the block
+			var blk *Expr
+			switch {
+			case cfg.Preds && c.chance(1, 2):
+				blk = &Expr{Kind: AndCode}
+			case cfg.States:
+				blk = &Expr{Kind: State}
+			case cfg.Preds:
+				blk = &Expr{Kind: NotCode}
+			}
+			if blk != nil {
+				leaf.Expr = &Expr{Kind: Seq, Subs: []*Expr{blk, leaf.Expr}}
+			}
+		}
 		g.Rules = append(g.Rules, leaf)
 		// sprinkle references
 		for _, rl := range g.Rules[:len(g.Rules)-1] {
@@ -501,14 +532,21 @@ func generateLR(c *gctx) *Grammar {
 	}
 	ref := func(n string) *Expr { return &Expr{Kind: Ref, Name: n} }
 	seq := func(items ...*Expr) *Expr { return &Expr{Kind: Seq, Subs: items} }
-	shape := c.r.Intn(5)
+	shape := c.r.Intn(6)
 	if c.cfg.LeftRecDirect {
-		shape = []int{0, 2}[c.r.Intn(2)]
+		shape = []int{0, 2, 5}[c.r.Intn(3)]
 	}
 	switch shape {
 	case 0: // A <- A op B / B
 		g.Rules = append(g.Rules,
 			&Rule{Name: "Start", Expr: seq(ref("Aa"), &Expr{Kind: Not, Subs: []*Expr{{Kind: Any}}})},
+			&Rule{Name: "Aa", Expr: &Expr{Kind: Choice, Subs: []*Expr{
+				act(seq(append([]*Expr{lab(ref("Aa"))}, st([]*Expr{c.lit(), lab(ref("Bb"))})...)...)),
+				act(ref("Bb"))}}},
+			&Rule{Name: "Bb", Expr: act(seq(st([]*Expr{operand()})...))})
+	case 5: // the operand rule also runs again, at the same offset, after the recursive rule was given up
+		g.Rules = append(g.Rules,
+			&Rule{Name: "Start", Expr: &Expr{Kind: Choice, Subs: []*Expr{seq(ref("Aa"), c.lit()), seq(lab(ref("Bb")), &Expr{Kind: Opt, Subs: []*Expr{c.lit()}}), ref("Aa")}}},
 			&Rule{Name: "Aa", Expr: &Expr{Kind: Choice, Subs: []*Expr{
 				act(seq(append([]*Expr{lab(ref("Aa"))}, st([]*Expr{c.lit(), lab(ref("Bb"))})...)...)),
 				act(ref("Bb"))}}},
@@ -583,11 +621,11 @@ func (g *Grammar) SampleInput(r Rand, maxLen int) []byte {
 		case Choice:
 			walk(e.Subs[r.Intn(len(e.Subs))], depth)
 		case Star:
-			for n := r.Intn(3); n > 0; n-- {
+			for n := r.Intn(5); n > 0; n-- {
 				walk(e.Subs[0], depth)
 			}
 		case Plus:
-			for n := 1 + r.Intn(2); n > 0; n-- {
+			for n := 1 + r.Intn(4); n > 0; n-- {
 				walk(e.Subs[0], depth)
 			}
 		case Opt:
